@@ -314,6 +314,36 @@ def buck4_cases(cases, fail):
                 terms = [cs[k] * x ** k for k in range(len(cs))]
                 # size of the problem the polynomial solves: its own terms and the end-point data it was fitted to
                 want, scale = float(sum(terms)), float(sum(abs(t) for t in terms)) + float(max(abs(v) for v in named.values()))
+            # the derivatives the factory's object offers (C07): those of the piece that gives the value
+            fx = float(x)
+            if q["piece"] == "bornmayer":
+                e = float(A) * math.exp(-fx / float(rho))
+                wd = (-e / float(rho), e / float(rho) ** 2, abs(e) / float(rho) ** 2)
+            elif q["piece"] == "dispersion":
+                wd = (float(6 * C / x ** 7), float(-42 * C / x ** 8), abs(float(42 * C / x ** 8)))
+            else:
+                cs = a if q["piece"] == "quintic" else b
+                t1 = [k * cs[k] * x ** (k - 1) for k in range(1, len(cs))]
+                t2 = [k * (k - 1) * cs[k] * x ** (k - 2) for k in range(2, len(cs))]
+                wd = (float(sum(t1)), float(sum(t2)), float(sum(abs(t) for t in t2)) + float(sum(abs(t) for t in t1)) + float(max(abs(v) for v in named.values())))
+            on_knot = x in (rd, rm, ra)
+            for route in ("R2", "R2int"):
+                obj = impls.get(route)
+                if obj is None or on_knot:
+                    continue
+                for name, w in (("deriv", wd[0]), ("deriv2", wd[1])):
+                    if not hasattr(obj, name):
+                        fail("offers", "potentialforms.buck4(%s) has no .%s" % (texts[i], name), dict(form="buck4", p=c["p"], x=q["x"]))
+                        continue
+                    try:
+                        dv = getattr(obj, name)(fx)
+                    except Exception as e:
+                        fail("derivative-raises", "buck4 %s at r=%s: .%s raised %s: %s" % (texts[i], dec(q["x"]), name, type(e).__name__, e), dict(form="buck4", p=c["p"], x=q["x"]))
+                        continue
+                    n += 1
+                    if not close(dv, w, scale=wd[2], tol=1e-8):
+                        fail(name, "buck4 %s at r=%s (%s piece): .%s = %r, the derivative of the documented four-range form is %r" % (texts[i], dec(q["x"]), q["piece"], name, dv, w),
+                             dict(form="buck4", p=c["p"], x=q["x"]))
             for route, f in impls.items():
                 n += 1
                 try:
